@@ -65,7 +65,7 @@ impl Plan {
 }
 
 /// structural giants appended after the corpus bases (see giants.rs)
-pub const GIANT_BASES: u64 = 7;
+pub const GIANT_BASES: u64 = 8;
 
 pub const MEM_FIXED: u64 = 64 * 1024 * 1024;
 pub const MEM_PER_BYTE: u64 = 8192;
